@@ -8,14 +8,30 @@ is cancelled at any point, the running operation ends with the cancellation erro
 succeeds and never reports the cancellation as a validation failure. Progress steps are
 positive, never exceed a non-zero total, and increase within a run of one phase.
 
-The theorems are about the checkpoint skeleton of an operation (any length, any callback):
-when every checkpoint propagates, a `false` at invocation k ends the operation with
-`OperationCancelled` after exactly k+1 callback calls. That every checkpoint of the *current
-source* propagates is the regenerated-table obligation below (one reviewed exception, which
-is a known finding). The end-to-end sweep (cancel at every k of every recorded operation) is
-run on the implementation by the harness.
+Three layers, tied together in this file:
+
+1. **Source table** (`Gen/C23Sites.lean`, regenerated from sdk/src on every run): the transitive
+   closure `cancelFns`/`condFns` of the functions that can return `OperationCancelled`, and one
+   row per call of such a function with what the caller does with the error.
+   `all_cancel_paths_propagate`: every row hands the error to the caller's own return value
+   (reviewed exception: the OCSP checkpoint, an open finding). `callers_closed`: the caller of a
+   propagating row is itself in the closure — so its callers are rows too, up to the public API.
+2. **Checkpoint semantics** (`run`/`runF`/`runS`): for every sequence of checkpoints *taken from
+   the table* (`source_sites_cancel`, `source_sites_cancel_in_callback`,
+   `source_sites_cancel_schedule`) the first checkpoint whose callback answers `false`, or that
+   observes the cancel flag (set in the callback, by another thread during the callback, or at
+   any time since the previous checkpoint), ends the operation with `OperationCancelled` after
+   exactly k+1 callback calls; it never finishes. The harness sends the (file, line) sequence each
+   real operation reached; the driver checks every one is a table row and runs this model on it.
+3. **Tick emitters**: the counters of the source (`ingredient_checks`, the C13 hash ticks, the BMFF
+   tick counter and the re-counting closure of `verify_hash_binding`) emit strictly well-formed
+   traces (`ingredientTicks_wf`, `hashTicks_wf`, `zeroTicks_wf`, `recount_wf`); strict
+   well-formedness implies every clause of the third sentence (`traceWfStrict_tickOk`,
+   `traceWfStrict_adjacent`).
 -/
 namespace C2pa.C23
+
+/-! ### checkpoint semantics: generic theorems -/
 
 theorem run_cancel_at (cb : Cb) (k : Nat) (hk : cb k = false) :
     ∀ (sites : List Site) (i : Nat) (logged : Bool),
@@ -98,6 +114,68 @@ theorem cancel_in_callback_cancels (sites : List Site) (cb : Cb) (k : Nat)
     runF cb k sites 0 false false = .cancelled (k + 1) :=
   runF_cancel_at cb k hcb sites 0 false hall (Nat.zero_le _) (by simpa using hk)
 
+theorem runS_cancel_at (cb : Cb) (flagAt : Nat → Bool) (k : Nat)
+    (hk : cb k = false ∨ flagAt k = true) :
+    ∀ (sites : List Site) (i : Nat) (logged : Bool),
+      AllPropagate sites → i ≤ k → k - i < sites.length →
+      (∀ j, i ≤ j → j < k → cb j = true ∧ flagAt j = false) →
+      runS cb flagAt sites i logged = .cancelled (k + 1) := by
+  intro sites
+  induction sites with
+  | nil => intro i logged _ _ hlen _; simp at hlen
+  | cons s rest ih =>
+    intro i logged hall hik hlen hpre
+    unfold runS
+    simp only [checkProgressS]
+    by_cases hi : i = k
+    · subst hi
+      have hs : s.disp = .propagate := hall s (List.mem_cons_self ..)
+      have : (cb i && !flagAt i) = false := by
+        rcases hk with h | h <;> simp [h]
+      simp [this, hs]
+    · have hlt : i < k := Nat.lt_of_le_of_ne hik hi
+      obtain ⟨h1, h2⟩ := hpre i (Nat.le_refl _) hlt
+      simp only [h1, h2, Bool.not_false, Bool.and_self, if_true]
+      apply ih
+      · intro x hx; exact hall x (List.mem_cons_of_mem _ hx)
+      · omega
+      · simp at hlen; omega
+      · intro j hj hjk; exact hpre j (by omega) hjk
+
+/-- **Any schedule of the cancel flag**: `flagAt i` is the flag value checkpoint i observes
+(set in the callback, by another thread while the callback runs, or by another thread at any
+moment since checkpoint i-1). The first checkpoint k at which the callback answers `false` *or*
+the flag is observed ends the operation with `OperationCancelled` after k+1 callback calls. -/
+theorem schedule_cancels (sites : List Site) (cb : Cb) (flagAt : Nat → Bool) (k : Nat)
+    (hall : AllPropagate sites) (hk : k < sites.length)
+    (hstop : cb k = false ∨ flagAt k = true)
+    (hpre : ∀ j, j < k → cb j = true ∧ flagAt j = false) :
+    runS cb flagAt sites 0 false = .cancelled (k + 1) :=
+  runS_cancel_at cb flagAt k hstop sites 0 false hall (Nat.zero_le _) (by simpa using hk)
+    (fun j _ hj => hpre j hj)
+
+/-- **cancel() from another thread between checkpoints k-1 and k** (or during callback k): the
+flag is observed from checkpoint k on; the operation ends there. -/
+theorem cancel_between_checkpoints_cancels (sites : List Site) (cb : Cb) (k : Nat)
+    (hall : AllPropagate sites) (hk : k < sites.length) (hcb : ∀ j, cb j = true) :
+    runS cb (fun i => decide (k ≤ i)) sites 0 false = .cancelled (k + 1) :=
+  schedule_cancels sites cb _ k hall hk (Or.inr (by simp))
+    (fun j hj => ⟨hcb j, by simp; omega⟩)
+
+/-- `runS` with a flag that is never set is `run` with a callback. -/
+theorem runS_never_eq_run (cb : Cb) : ∀ (sites : List Site) (i : Nat) (l : Bool),
+    runS cb (fun _ => false) sites i l = run (some cb) false sites i l := by
+  intro sites
+  induction sites with
+  | nil => intro i l; simp [runS, run]
+  | cons s rest ih =>
+    intro i l
+    unfold runS run
+    simp only [checkProgressS, checkProgress, Bool.not_false, Bool.and_true]
+    split
+    · simp [ih]
+    · cases s.disp <;> simp [ih]
+
 /-- The shape of the repaired defect: one swallowing checkpoint lets a cancelled operation
 finish with the cancellation logged as a validation failure (proved witness). -/
 theorem swallow_breaks_cancellation :
@@ -105,6 +183,147 @@ theorem swallow_breaks_cancellation :
   ⟨[{ tick := ⟨"VerifyingAssetHash", 1, 1⟩, disp := .swallow },
     { tick := ⟨"Reading", 1, 1⟩, disp := .propagate }],
    fun i => i != 0, by decide⟩
+
+/-- … and one silently discarding checkpoint (the OCSP `.ok()?` shape) lets it finish as if
+nothing had happened. -/
+theorem discard_breaks_cancellation :
+    ∃ sites cb, run (some cb) false sites 0 false = .finished 2 false :=
+  ⟨[{ tick := ⟨"FetchingOCSP", 1, 1⟩, disp := .discard },
+    { tick := ⟨"Signing", 1, 1⟩, disp := .propagate }],
+   fun i => i != 0, by decide⟩
+
+/-! ### Obligations on the regenerated source table (re-checked on every run) -/
+
+/-- Checkpoints whose swallowing of the cancellation has been reviewed and recorded as a known
+finding (`swallow-site:<file>`). -/
+def reviewedSwallow : List (List Char) := ["crypto/ocsp/fetch.rs".toList]
+
+/-- Reviewed rows of the caller table: (caller, callee). The only one is the OCSP checkpoint
+(`fetch_ocsp_response` returns `Option`; open finding `swallow-site:crypto/ocsp/fetch.rs`). -/
+def reviewedCaller (r : String × String × Nat × Disp) : Bool :=
+  r.1 == "crypto/ocsp/fetch.rs::fetch_ocsp_response" && r.2.1 == "check_progress"
+
+/-- **Every path of a cancellation to the public API propagates**: every call of a function that
+can return `OperationCancelled` (transitive closure from `check_progress`, closures forwarded as
+progress callbacks included) hands that error to its caller's own return value — no `match …
+Err(e) => log`, `if let Err`, `.ok()`, `unwrap_or…`, `map_err`, `let _ =` in between. Fails when
+either historical defect (the `verify_hash_binding` match arms, ingredient validation) is
+reintroduced. -/
+theorem all_cancel_paths_propagate :
+    Gen.callers.all (fun r => r.2.2.2 == Disp.propagate || reviewedCaller r) = true := by
+  decide +kernel
+
+/-- The table is closed upwards: the caller of every propagating row is itself one of the
+functions whose calls are rows (so the error keeps being handed on until it leaves the SDK). -/
+theorem callers_closed :
+    Gen.callers.all (fun r => r.2.2.2 != Disp.propagate ||
+      Gen.cancelFns.contains r.1 || Gen.condFns.contains r.1) = true := by
+  decide +kernel
+
+/-- The closure is not empty and contains the three public operations of the statement. -/
+theorem closure_has_operations :
+    Gen.cancelFns.contains "reader.rs::Reader::with_stream" = true ∧
+    Gen.cancelFns.contains "builder.rs::Builder::sign" = true ∧
+    Gen.cancelFns.contains "builder.rs::Builder::add_ingredient_from_stream" = true ∧
+    Gen.cancelFns.contains "builder.rs::Builder::update_hash_from_stream" = true := by
+  decide +kernel
+
+/-- Every `check_progress` call site of the current source propagates its result, except the
+reviewed ones. -/
+theorem all_sites_propagate_or_reviewed :
+    Gen.sites.all (fun s => s.2.2 == Disp.propagate || reviewedSwallow.contains s.1.toList) = true := by
+  decide +kernel
+
+/-- Every invocation of a progress parameter / closure propagates its result. -/
+theorem all_invocations_propagate :
+    Gen.invocations.all (fun s => s.2.2 == Disp.propagate) = true := by decide +kernel
+
+/-- Every `match hash_result` of `Claim::verify_hash_binding` returns a cancellation to the
+caller instead of logging it as a hash mismatch. -/
+theorem hash_binding_arms_guarded :
+    Gen.hashResultGuards = Gen.hashResultMatches ∧ Gen.cancelIsFatal = true ∧ 0 < Gen.hashResultMatches := by
+  decide
+
+/-! ### the generic theorems instantiated on table rows -/
+
+theorem table_row_propagates (r : String × Nat × Disp) (h : r ∈ Gen.sites)
+    (hr : reviewedSwallow.contains r.1.toList = false) : r.2.2 = Disp.propagate := by
+  have h1 := List.all_eq_true.1 all_sites_propagate_or_reviewed r h
+  simp only [hr, Bool.or_false] at h1
+  simpa using h1
+
+theorem allPropagate_of_table (sel : List (String × Nat × Disp))
+    (hs : ∀ r ∈ sel, r ∈ Gen.sites ∧ reviewedSwallow.contains r.1.toList = false) :
+    AllPropagate (sel.map siteOf) := by
+  intro s hs'
+  obtain ⟨r, hr, rfl⟩ := List.mem_map.1 hs'
+  exact table_row_propagates r (hs r hr).1 (hs r hr).2
+
+/-- **Source checkpoints cancel**: for every sequence of checkpoints of the current source (rows of
+the regenerated table outside the reviewed file) an operation may reach, a `false` answer at
+invocation k ends it with `OperationCancelled` after k+1 callback calls. -/
+theorem source_sites_cancel (sel : List (String × Nat × Disp))
+    (hs : ∀ r ∈ sel, r ∈ Gen.sites ∧ reviewedSwallow.contains r.1.toList = false)
+    (cb : Cb) (k : Nat) (hk : k < sel.length) (hf : cb k = false) (hp : ∀ j, j < k → cb j = true) :
+    run (some cb) false (sel.map siteOf) 0 false = .cancelled (k + 1) :=
+  cancel_at_k_cancels _ cb k (allPropagate_of_table sel hs) (by simpa using hk) hf hp
+
+theorem source_sites_cancel_in_callback (sel : List (String × Nat × Disp))
+    (hs : ∀ r ∈ sel, r ∈ Gen.sites ∧ reviewedSwallow.contains r.1.toList = false)
+    (cb : Cb) (k : Nat) (hk : k < sel.length) (hcb : ∀ j, cb j = true) :
+    runF cb k (sel.map siteOf) 0 false false = .cancelled (k + 1) :=
+  cancel_in_callback_cancels _ cb k (allPropagate_of_table sel hs) (by simpa using hk) hcb
+
+theorem source_sites_cancel_schedule (sel : List (String × Nat × Disp))
+    (hs : ∀ r ∈ sel, r ∈ Gen.sites ∧ reviewedSwallow.contains r.1.toList = false)
+    (cb : Cb) (flagAt : Nat → Bool) (k : Nat) (hk : k < sel.length)
+    (hstop : cb k = false ∨ flagAt k = true)
+    (hpre : ∀ j, j < k → cb j = true ∧ flagAt j = false) :
+    runS cb flagAt (sel.map siteOf) 0 false = .cancelled (k + 1) :=
+  schedule_cancels _ cb flagAt k (allPropagate_of_table sel hs) (by simpa using hk) hstop hpre
+
+/-- … and never finishes, whatever the schedule. -/
+theorem source_sites_never_finish (sel : List (String × Nat × Disp))
+    (hs : ∀ r ∈ sel, r ∈ Gen.sites ∧ reviewedSwallow.contains r.1.toList = false)
+    (cb : Cb) (flagAt : Nat → Bool) (k : Nat) (hk : k < sel.length)
+    (hstop : cb k = false ∨ flagAt k = true)
+    (hpre : ∀ j, j < k → cb j = true ∧ flagAt j = false) (c : Nat) (l : Bool) :
+    runS cb flagAt (sel.map siteOf) 0 false ≠ .finished c l := by
+  rw [source_sites_cancel_schedule sel hs cb flagAt k hk hstop hpre]; intro h; cases h
+
+/-- The driver's lookup returns table rows only (so the skeletons it runs satisfy the
+membership hypothesis above). -/
+theorem lookupSite_mem (table : List (String × Nat × Disp)) (s : String) (r : String × Nat × Disp)
+    (h : lookupSite table s = some r) : r ∈ table := by
+  unfold lookupSite at h
+  split at h
+  · split at h
+    · exact List.mem_of_find?_eq_some h
+    · cases h
+  · cases h
+
+theorem lookupAll_mem (table : List (String × Nat × Disp)) :
+    ∀ (ss : List String) (rows : List (String × Nat × Disp)),
+      lookupAll table ss = .ok rows → ∀ r ∈ rows, r ∈ table := by
+  intro ss
+  induction ss with
+  | nil => intro rows h r hr; simp [lookupAll] at h; subst h; cases hr
+  | cons s rest ih =>
+    intro rows h r hr
+    unfold lookupAll at h
+    split at h
+    · cases h
+    · rename_i r0 h0
+      cases hrest : lookupAll table rest with
+      | error e => simp [hrest, Except.map] at h
+      | ok rs =>
+        simp [hrest, Except.map] at h
+        subst h
+        rcases List.mem_cons.1 hr with rfl | hr'
+        · exact lookupSite_mem table s _ h0
+        · exact ih rs hrest r hr'
+
+/-! ### progress traces -/
 
 /-- Well-formed traces have positive steps that do not exceed a non-zero total. -/
 theorem traceWf_tickOk : ∀ (ts : List Tick), traceWf ts = true → ∀ t ∈ ts, tickOk t = true := by
@@ -124,34 +343,283 @@ theorem traceWf_tickOk : ∀ (ts : List Tick), traceWf ts = true → ∀ t ∈ t
       · exact h.1.1
       · exact ih h.2 t ht'
 
-/-! ### Obligations on the regenerated call-site table (re-checked on every run) -/
+/-- Strictly well-formed traces: every step is ≥ 1 and ≤ a non-zero total. -/
+theorem traceWfStrict_tickOk : ∀ (ts : List Tick), traceWfStrict ts = true →
+    ∀ t ∈ ts, 1 ≤ t.step ∧ (t.total = 0 ∨ t.step ≤ t.total) := by
+  intro ts
+  induction ts with
+  | nil => intro _ t ht; cases ht
+  | cons a rest ih =>
+    intro h t ht
+    have key : ∀ x : Tick, tickOk x = true → 1 ≤ x.step ∧ (x.total = 0 ∨ x.step ≤ x.total) := by
+      intro x hx; simpa [tickOk] using hx
+    cases rest with
+    | nil =>
+      simp [traceWfStrict] at h
+      rcases List.mem_singleton.1 ht with rfl
+      exact key _ h
+    | cons u rest' =>
+      simp only [traceWfStrict, Bool.and_eq_true] at h
+      rcases List.mem_cons.1 ht with rfl | ht'
+      · exact key _ h.1.1
+      · exact ih h.2 t ht'
 
-/-- Checkpoints whose swallowing of the cancellation has been reviewed and recorded as a known
-finding (`swallow-site:<file>`). -/
-def reviewedSwallow : List (List Char) := ["crypto/ocsp/fetch.rs".toList]
+/-- … and two adjacent ticks of one phase increase strictly, unless the second starts a new
+pass (step 1) directly after the first completed its own (`step = total`). -/
+theorem traceWfStrict_adjacent : ∀ (ts : List Tick), traceWfStrict ts = true →
+    ∀ (i : Nat) (t u : Tick), ts[i]? = some t → ts[i + 1]? = some u → t.phase = u.phase →
+      t.step < u.step ∨ (u.step = 1 ∧ t.step = t.total) := by
+  intro ts
+  induction ts with
+  | nil => intro _ i t u h; simp at h
+  | cons a rest ih =>
+    intro h i t u ht hu hp
+    cases rest with
+    | nil => simp at hu
+    | cons b rest' =>
+      simp only [traceWfStrict, Bool.and_eq_true] at h
+      cases i with
+      | zero =>
+        simp at ht hu
+        subst ht; subst hu
+        have := h.1.2
+        simp [stepOk, hp] at this
+        exact this
+      | succ n =>
+        exact ih h.2 n t u (by simpa using ht) (by simpa using hu) hp
 
-/-- Every `check_progress` call site of the current source propagates its result, except the
-reviewed ones. -/
-theorem all_sites_propagate_or_reviewed :
-    Gen.sites.all (fun s => s.2.2 == Disp.propagate || reviewedSwallow.contains s.1.toList) = true := by
-  decide +kernel
+/-- A counter that does not advance is rejected (the escape of the lax rule is gone). -/
+theorem stuck_counter_rejected (p : String) (T : Nat) (hT : 1 < T) :
+    traceWfStrict [⟨p, 1, T⟩, ⟨p, 1, T⟩] = false := by
+  simp [traceWfStrict, stepOk, tickOk]
+  omega
 
-/-- Every invocation of a progress closure inside the hashing code propagates its result. -/
-theorem all_invocations_propagate :
-    Gen.invocations.all (fun s => s.2.2 == Disp.propagate) = true := by decide +kernel
+/-- the counting loop `step += 1; tick(step, T)` from step `i`, `n` times -/
+def countFrom (p : String) (T : Nat) : Nat → Nat → List Tick
+  | _, 0 => []
+  | i, n + 1 => ⟨p, i + 1, T⟩ :: countFrom p T (i + 1) n
 
-/-- Every `match hash_result` of `Claim::verify_hash_binding` returns a cancellation to the
-caller instead of logging it as a hash mismatch. -/
-theorem hash_binding_arms_guarded :
-    Gen.hashResultGuards = Gen.hashResultMatches ∧ Gen.cancelIsFatal = true ∧ 0 < Gen.hashResultMatches := by
-  decide
+theorem countFrom_wf (p : String) (T : Nat) : ∀ (n i : Nat), (T = 0 ∨ i + n ≤ T) →
+    traceWfStrict (countFrom p T i n) = true := by
+  intro n
+  induction n with
+  | zero => intro i _; simp [countFrom, traceWfStrict]
+  | succ n ih =>
+    intro i h
+    cases n with
+    | zero =>
+      simp [countFrom, traceWfStrict, tickOk]
+      omega
+    | succ m =>
+      have h2 := ih (i + 1) (by omega)
+      simp only [countFrom] at h2 ⊢
+      simp only [traceWfStrict, h2, Bool.and_true, Bool.and_eq_true]
+      refine ⟨?_, ?_⟩
+      · simp [tickOk]; omega
+      · simp [stepOk]
+
+theorem map_range_eq_countFrom (p : String) (T : Nat) : ∀ (n i : Nat),
+    (List.range' i n).map (fun j => (⟨p, j + 1, T⟩ : Tick)) = countFrom p T i n := by
+  intro n
+  induction n with
+  | zero => intro i; simp [countFrom]
+  | succ n ih => intro i; simp [List.range', countFrom, ih]
+
+/-- **Ingredient ticks**: `ingredient_checks` on a claim with n ingredient assertions emits
+(1,n) … (n,n): strictly well-formed for every n. -/
+theorem ingredientTicks_wf (n : Nat) : traceWfStrict (ingredientTicks n) = true := by
+  unfold ingredientTicks
+  rw [List.range_eq_range', map_range_eq_countFrom]
+  exact countFrom_wf _ n n 0 (Or.inr (by omega))
+
+/-- **Hash ticks** (C13 `ticks T n`: the callback sequence of `hash_stream_by_alg_with_progress`,
+(1,T) … (n,T) with n ≤ T, n = T for a completed run): strictly well-formed. -/
+theorem hashTicks_wf (phase : String) (T n : Nat) (h : n ≤ T) :
+    traceWfStrict (hashTicks phase T n) = true := by
+  unfold hashTicks
+  rw [List.range_eq_range', map_range_eq_countFrom]
+  exact countFrom_wf _ T n 0 (Or.inr (by omega))
+
+/-- **BMFF tick counter** (`progress_tick`: `*step += 1; progress(*step, 0)`): strictly well-formed. -/
+theorem zeroTicks_wf (phase : String) (n : Nat) : traceWfStrict (zeroTicks phase n) = true := by
+  unfold zeroTicks
+  rw [List.range_eq_range', map_range_eq_countFrom]
+  exact countFrom_wf _ 0 n 0 (Or.inl rfl)
+
+/-- **The re-counting closure** of `verify_hash_binding` (own counter, total handed on) applied to
+inner ticks whose totals are 0 or at least the running count: strictly well-formed. -/
+theorem recount_wf (phase : String) : ∀ (ts : List Tick) (k : Nat),
+    (∀ (i : Nat) (t : Tick), ts[i]? = some t → t.total = 0 ∨ k + i + 1 ≤ t.total) →
+    traceWfStrict (recount phase k ts) = true := by
+  intro ts
+  induction ts with
+  | nil => intro k _; simp [recount, traceWfStrict]
+  | cons a rest ih =>
+    intro k h
+    have ha := h 0 a (by simp)
+    have hrest : ∀ (i : Nat) (t : Tick), rest[i]? = some t → t.total = 0 ∨ (k + 1) + i + 1 ≤ t.total := by
+      intro i t ht
+      have := h (i + 1) t (by simpa using ht)
+      omega
+    have h2 := ih (k + 1) hrest
+    cases rest with
+    | nil =>
+      simp [recount, traceWfStrict, tickOk]
+      omega
+    | cons b rest' =>
+      simp only [recount] at h2 ⊢
+      simp only [traceWfStrict, h2, Bool.and_true, Bool.and_eq_true]
+      refine ⟨?_, ?_⟩
+      · simp [tickOk]; omega
+      · simp [stepOk]
+
+/-- The BMFF verification trace (one ranged hash pass of T chunks, then m per-box ticks of total 0)
+through the re-counting closure. -/
+theorem recount_bmff_wf (phase : String) (T m : Nat) :
+    traceWfStrict (recount phase 0 (hashTicks "x" T T ++ zeroTicks "x" m)) = true := by
+  apply recount_wf
+  intro i t ht
+  by_cases hi : i < T
+  · have : t = ⟨"x", i + 1, T⟩ := by
+      have h1 : (hashTicks "x" T T)[i]? = some ⟨"x", i + 1, T⟩ := by simp [hashTicks, hi]
+      rw [List.getElem?_append_left (by simpa [hashTicks] using hi)] at ht
+      rw [h1] at ht; exact (Option.some.inj ht).symm
+    subst this
+    right; simp; omega
+  · left
+    rw [List.getElem?_append_right (by simp [hashTicks]; omega)] at ht
+    simp [zeroTicks] at ht
+    obtain ⟨w, _, rfl⟩ := ht
+    rfl
+
+/-! ### ingredient trees (nested levels) -/
+
+def headOk (a : Tick) : List Tick → Bool
+  | [] => true
+  | b :: _ => stepOk a b
+
+theorem traceWfStrict_cons (a : Tick) (l : List Tick) :
+    traceWfStrict (a :: l) = (tickOk a && headOk a l && traceWfStrict l) := by
+  cases l with
+  | nil => simp [traceWfStrict, headOk]
+  | cons b rest => simp [traceWfStrict, headOk]
+
+mutual
+  theorem sigTicks_all (c : Ing) : ∀ t ∈ sigTicks c, t = sigTick := by
+    cases c with
+    | plain => intro t ht; simp [sigTicks] at ht
+    | manifest cs =>
+      intro t ht
+      simp only [sigTicks, List.mem_cons] at ht
+      rcases ht with rfl | h
+      · rfl
+      · exact sigTicksL_all cs t h
+  theorem sigTicksL_all (cs : List Ing) : ∀ t ∈ sigTicksL cs, t = sigTick := by
+    cases cs with
+    | nil => intro t ht; simp [sigTicksL] at ht
+    | cons c rest =>
+      intro t ht
+      simp only [sigTicksL, List.mem_append] at ht
+      rcases ht with h | h
+      · exact sigTicks_all c t h
+      · exact sigTicksL_all rest t h
+end
+
+/-- a block of signature ticks in front of a well-formed rest that does not start with a
+conflicting tick is well-formed -/
+theorem sigBlock_wf : ∀ (l rest : List Tick), (∀ t ∈ l, t = sigTick) →
+    traceWfStrict rest = true → headOk sigTick rest = true →
+    traceWfStrict (l ++ rest) = true ∧ headOk sigTick (l ++ rest) = true := by
+  intro l
+  induction l with
+  | nil => intro rest _ h1 h2; exact ⟨h1, h2⟩
+  | cons a l ih =>
+    intro rest hall h1 h2
+    have ha : a = sigTick := hall a (List.mem_cons_self ..)
+    subst ha
+    obtain ⟨i1, i2⟩ := ih rest (fun t ht => hall t (List.mem_cons_of_mem _ ht)) h1 h2
+    refine ⟨?_, ?_⟩
+    · rw [List.cons_append, traceWfStrict_cons, i1, i2]
+      decide
+    · simp only [List.cons_append, headOk]; decide
+
+theorem emitTop_head (n i : Nat) (cs : List Ing) :
+    headOk sigTick (emitTop n i cs) = true := by
+  cases cs with
+  | nil => simp [emitTop, headOk]
+  | cons c rest => simp [emitTop, headOk, stepOk, sigTick]
+
+theorem emitTop_wf (n : Nat) : ∀ (cs : List Ing) (i : Nat), i + cs.length ≤ n →
+    traceWfStrict (emitTop n i cs) = true := by
+  intro cs
+  induction cs with
+  | nil => intro i _; simp [emitTop, traceWfStrict]
+  | cons c rest ih =>
+    intro i h
+    simp only [List.length_cons] at h
+    have hrest := ih (i + 1) (by omega)
+    obtain ⟨b1, _⟩ := sigBlock_wf (sigTicks c) (emitTop n (i + 1) rest) (sigTicks_all c) hrest
+      (emitTop_head n (i + 1) rest)
+    simp only [emitTop]
+    rw [traceWfStrict_cons, b1]
+    have ht : tickOk ⟨"VerifyingIngredient", i + 1, n⟩ = true := by
+      simp [tickOk]; omega
+    have hh : headOk ⟨"VerifyingIngredient", i + 1, n⟩ (sigTicks c ++ emitTop n (i + 1) rest) = true := by
+      cases hs : sigTicks c with
+      | nil =>
+        cases rest with
+        | nil => simp [emitTop, headOk]
+        | cons c' rest' => simp [emitTop, headOk, stepOk]
+      | cons a l =>
+        have : a = sigTick := sigTicks_all c a (by rw [hs]; exact List.mem_cons_self ..)
+        subst this
+        simp [headOk, stepOk, sigTick]
+    rw [ht, hh]; rfl
+
+/-- **Ingredient trees**: for every ingredient tree (any width, any nesting) the ticks
+`verify_store` emits for the ingredients of the validated manifest — one VerifyingIngredient
+tick per top-level ingredient, one VerifyingSignature tick per nested claim — are strictly
+well-formed. (Full strength after fix C23-nested-ingredient-progress; before it, see
+`nested_levels_interleaved_before_fix`.) -/
+theorem emitClaim_wf (cs : List Ing) : traceWfStrict (emitClaim cs) = true :=
+  emitTop_wf cs.length cs 0 (by omega)
+
+/-- The repaired defect: when every nested `ingredient_checks` level reported its own
+(step, total), the manifest with ingredients [A, plain], A having two plain ingredients,
+produced VerifyingIngredient 2/2 directly followed by 2/2 (replayed on the implementation by the
+harness tree `m(pp)p`; even the lax rule rejects it). -/
+theorem nested_levels_interleaved_before_fix :
+    traceWfStrict (emitClaimOld [.manifest [.plain, .plain], .plain]) = false ∧
+    traceWf (emitClaimOld [.manifest [.plain, .plain], .plain]) = false := by
+  simp [emitClaimOld, emitLevelOld, emitIngOld, traceWfStrict, traceWf, stepOk, tickOk, sigTick]
+
+/-- flat claims: the tree emitter is the plain counter -/
+theorem emitClaim_flat (n : Nat) : emitClaim (List.replicate n .plain) = ingredientTicks n := by
+  have key : ∀ (m i : Nat), emitTop n i (List.replicate m .plain) = countFrom "VerifyingIngredient" n i m := by
+    intro m
+    induction m with
+    | zero => intro i; simp [emitTop, countFrom]
+    | succ m ih => intro i; simp [List.replicate_succ, emitTop, sigTicks, countFrom, ih]
+  unfold emitClaim ingredientTicks
+  rw [List.length_replicate, key, List.range_eq_range', map_range_eq_countFrom]
 
 /-! ### Non-vacuity -/
 example : AllPropagate (skeleton 5) := by
   intro s hs; simp [skeleton] at hs; rw [hs]
 example : run (some (fun i => i != 3)) false (skeleton 5) 0 false = .cancelled 4 := by decide
 example : runF (fun _ => true) 2 (skeleton 5) 0 false false = .cancelled 3 := by decide
+example : runS (fun _ => true) (fun i => decide (2 ≤ i)) (skeleton 5) 0 false = .cancelled 3 := by decide
 example : traceWf [⟨"Hashing", 1, 3⟩, ⟨"Hashing", 2, 3⟩, ⟨"Signing", 1, 1⟩] = true := by decide +kernel
 example : traceWf [⟨"Hashing", 2, 3⟩, ⟨"Hashing", 2, 3⟩] = false := by decide +kernel
+example : traceWfStrict [⟨"H", 1, 1⟩, ⟨"H", 1, 2⟩, ⟨"H", 2, 2⟩, ⟨"S", 1, 1⟩] = true := by decide +kernel
+example : traceWfStrict [⟨"H", 1, 3⟩, ⟨"H", 1, 3⟩] = false := by decide +kernel
+/-- a selection of real table rows meets the hypothesis of `source_sites_cancel` -/
+example : ∀ r ∈ Gen.sites.filter (fun r => !reviewedSwallow.contains r.1.toList),
+    r ∈ Gen.sites ∧ reviewedSwallow.contains r.1.toList = false := by
+  intro r hr
+  have := List.mem_filter.1 hr
+  exact ⟨this.1, by simpa using this.2⟩
+example : 20 < (Gen.sites.filter (fun r => !reviewedSwallow.contains r.1.toList)).length := by decide +kernel
+example : 40 < Gen.cancelFns.length ∧ 100 < Gen.callers.length := by decide +kernel
 
 end C2pa.C23
